@@ -179,6 +179,13 @@ def run(prop, tier):
                       what='%s: sink received %d parts, reference %d, documented %d'
                            % (e['example'], e['observed'], e['reference_tlc'], e['documented']),
                       replay={'pipeline': 'floor', 'example': e['example']})
+    bf = None
+    if prop == 'C05':
+        bf = buffloat_result(tier)
+        for x in bf['violations']:
+            v.add(key='C05:%s' % x['clause'].split('.', 1)[1], clause=x['clause'],
+                  what='non-grid buffer run %d departure %d fails %s' % (x['tid'], x['k'], x['clause']),
+                  replay={'pipeline': 'floor', 'buffloat_seed': x['seed']})
     pool_lines = 0
     if prop == 'C15':
         # the resource-record clauses are also evaluated on the pool traces (PoolsTrace.tla, clauses C15.*)
@@ -208,6 +215,8 @@ def run(prop, tier):
     }
     if ex is not None:
         cov['documented_examples'] = ex
+    if bf is not None:
+        cov['non_grid_buffer_runs'] = {'runs': bf['runs'], 'departures_checked': bf['departures']}
     d = design_result(tier)
     if d:
         cov.update(states=d['states'], transitions=d['transitions'], design=d, exhaustive=True)
@@ -327,12 +336,43 @@ def _examples(tier):
     return {'examples': out}
 
 
+def _bf(job):
+    from . import buffloat_driver as B
+    return B.run(*job)
+
+
+def _buffloat(tier):
+    n = 300 if tier == 'quick' else 6000
+    jobs = [(i + 1, C.seed() * 7907 + i) for i in range(n)]
+    traces = C.parallel_map(_bf, jobs)
+    stage = C.stage_specs(C.scratch('buffloat'))
+    fails, nlines, wall = P.validate_traces(stage, 'BufFloat', 'BufFloat.cfg', traces)
+    vio = []
+    seen = set()
+    for tid, k, clause in sorted(fails):
+        if clause in seen:
+            continue
+        seen.add(clause)
+        vio.append({'tid': tid, 'k': k, 'clause': clause, 'seed': jobs[tid - 1][1]})
+    return {'runs': n, 'departures': nlines, 'violations': vio}
+
+
+def buffloat_result(tier):
+    return P.cached('floor_buffloat', tier, lambda: _buffloat(tier))
+
+
 def examples_result(tier):
     return P.cached('floor_examples', tier, lambda: _examples(tier))
 
 
 def replay(sc):
     from . import floor_tracer as T
+    if sc.get('buffloat_seed') is not None:
+        from . import buffloat_driver as B
+        lines = B.run(1, sc['buffloat_seed'])
+        stage = C.stage_specs(C.scratch('buffloat_replay'))
+        fails, n, _ = P.validate_traces(stage, 'BufFloat', 'BufFloat.cfg', [lines], shards=1)
+        return fails, None
     if sc.get('example'):
         e = [x for x in _examples('quick')['examples'] if x['example'] == sc['example']][0]
         bad = not (e['observed'] == e['reference_tlc'] == e['documented'])
